@@ -1,4 +1,7 @@
-import sys, random, time, traceback, json
+import sys, random, time, traceback, json, signal
+class TO(BaseException): pass
+def _al(*a): raise TO()
+signal.signal(signal.SIGALRM,_al)
 sys.path[:0]=['/verif']
 from vfw import scenarios
 from vfw.props import c07
@@ -11,8 +14,11 @@ for f in fams:
     for i in range(n):
         case={"family":f,"seed":rnd.randrange(2**31),"k":[rnd.randrange(64) for _ in range(8)]}
         try:
+            signal.setitimer(signal.ITIMER_REAL, 10)
             r=ex(case)
-        except Exception as e:
+            signal.setitimer(signal.ITIMER_REAL, 0)
+        except (Exception, TO) as e:
+            signal.setitimer(signal.ITIMER_REAL, 0)
             print(f"!! {f} EXC {type(e).__name__}: {e} case={json.dumps(case)}"); traceback.print_exc(limit=-6); break
         dl.append(r.observed["deliveries"]); nt+=r.nontrivial
         classes|=set(r.observed["classes"]); handled|=set(r.observed["handled"])
